@@ -90,13 +90,14 @@ Definition state_count (sc : scenario) : nat * bool :=
   let r := reach (sys_of sc) FUEL in (length (fst r), snd r).
 
 (* THE computation: all scenarios in scope, all predicates *)
-Lemma all_scenarios_ok : forallb scenario_ok scenarios = true.
+Lemma all_scenarios_ok : forallb (fun sc => ok_on sc (reach_of sc)) scenarios = true.
 Proof. vm_cast_no_check (eq_refl true). Qed.
 
-Lemma scenario_ok_of : forall sc, in_scope sc = true -> scenario_ok sc = true.
+Lemma scenario_ok_of : forall sc, in_scope sc = true -> ok_on sc (reach_of sc) = true.
 Proof.
-  intros sc H. pose proof all_scenarios_ok as A. rewrite forallb_forall in A.
-  apply A. apply scenarios_complete. exact H.
+  intros sc H.
+  exact (proj1 (forallb_forall (fun sc => ok_on sc (reach_of sc)) scenarios) all_scenarios_ok
+               sc (scenarios_complete sc H)).
 Qed.
 
 Record ok_parts (sc : scenario) (rs : list state) : Prop := mkParts {
